@@ -101,20 +101,33 @@ def _jumps(e):
     return any(x[0] in ('Bool', 'IfExp') or (x[0] == 'Cmp' and len(x[2]) > 1) for x in _walk(e))
 
 
+FEATURE_ORDER = ['ifexp-in-later-operand-of-and-or', 'ifexp-after-jumping-operand', 'ifexp-in-else-branch-of-ifexp',
+                 'ifexp-in-body-of-ifexp', 'ifexp-in-test-of-ifexp', 'not-with-and-or-in-test-of-ifexp']
+
+
 def expr_features(e):
-    """Source features of an expression, most specific first (the first one names the known defect)."""
-    f = []
+    """Source features of an expression that name the known defects of the conditional-expression reconstruction
+    (Decompiler.JUMP_FORWARD / process_target), in a fixed order; the first one is used as the signature."""
+    f = set()
     for x in _walk(e):
-        if x[0] == 'IfExp' and _has(x[2], 'IfExp'):
-            f.append('ifexp-in-body-of-ifexp')
-        if x[0] == 'IfExp' and _has(x[3], 'IfExp'):
-            f.append('ifexp-in-else-branch-of-ifexp')
-        if x[0] == 'IfExp' and _has(x[1], 'IfExp'):
-            f.append('ifexp-in-test-of-ifexp')
-        if x[0] == 'Bool' and any(_has(v, 'IfExp') for v in x[2][1:]):
-            f.append('ifexp-in-later-operand-of-and-or')
-    order = ['ifexp-in-later-operand-of-and-or', 'ifexp-in-else-branch-of-ifexp', 'ifexp-in-body-of-ifexp', 'ifexp-in-test-of-ifexp']
-    return [x for x in order if x in f]
+        if x[0] == 'IfExp':
+            if _has(x[2], 'IfExp'):
+                f.add('ifexp-in-body-of-ifexp')
+            if _has(x[3], 'IfExp'):
+                f.add('ifexp-in-else-branch-of-ifexp')
+            if _has(x[1], 'IfExp'):
+                f.add('ifexp-in-test-of-ifexp')
+            if _has(x[1], 'Bool') and any(y[0] == 'Un' and y[1] == 'Not' for y in _walk(x[1])):
+                f.add('not-with-and-or-in-test-of-ifexp')
+        elif x[0] == 'Bool':
+            if any(_has(v, 'IfExp') for v in x[2][1:]):
+                f.add('ifexp-in-later-operand-of-and-or')
+        else:
+            kids = _children(x)
+            for i, c in enumerate(kids):
+                if i and _has(c, 'IfExp') and any(_jumps(p) for p in kids[:i]):
+                    f.add('ifexp-after-jumping-operand')
+    return [x for x in FEATURE_ORDER if x in f]
 
 
 def _nonboolean_jumps(e, boolean=True):
@@ -143,8 +156,13 @@ def gen_features(g):
     return f
 
 
+GEN_ONLY = ('ifexp-in-filter', 'ifexp-in-element-of-filtered-generator', 'and-or-as-operand-inside-filter')
+
+
 def signature(kind, feats):
-    return 'C03:%s:%s' % (kind, feats[0] if feats else 'no-known-feature')
+    if not feats:
+        return 'C03:%s:no-known-feature' % kind
+    return 'C03:%s:%s' % ('gen' if feats[0] in GEN_ONLY else 'ifexp', feats[0])
 
 
 # -- evaluation of ast objects ------------------------------------------------------------------------------------------------
